@@ -209,6 +209,29 @@ func (c12) unique(c *fw.Case) {
 			return
 		}
 	}
+	if n >= 1 && r.IntN(4) == 0 {
+		// several uniqueItems checks within ONE call, a failed one swallowed in between: the first member of the outer array
+		// holds the same items plus a repeated one and sits under not / if / anyOf, the second member is the array itself.
+		// Whatever the failed check leaves behind must not reach the next one.
+		withDup := append(append([]any{els[r.IntN(n)]}, els...), els[r.IntN(n)])
+		first := gen.Pick(r, []string{`{"not":{"uniqueItems":true}}`, `{"if":{"uniqueItems":true},"then":false}`, `{"anyOf":[{"uniqueItems":true},{"minItems":2}]}`})
+		text := `{"prefixItems":[` + first + `,{"uniqueItems":true}]}`
+		if rs2, err, ok := compileDoc(c, text, nil); ok && err == nil {
+			outer := []any{withDup, inst}
+			odesc := gen.Describe(outer)
+			got, ok := validate(c, rs2, text, outer, odesc)
+			if !ok {
+				return
+			}
+			c.Eval(1)
+			c.Count("unique:after_a_swallowed_failure", 1)
+			if got != expectUnique {
+				c.Violation(fmt.Sprintf("uniqueItems after a swallowed uniqueItems failure in the same call: valid=%v but pairwise JSON equality says unique=%v", got, expectUnique),
+					map[string]any{"schema": json.RawMessage(text), "instance": odesc, "canon": canons})
+				return
+			}
+		}
+	}
 	if !expectUnique {
 		ti, tj := typeName(els[dupI]), typeName(els[dupJ])
 		if ti != tj || planted == "" {
